@@ -502,7 +502,7 @@ def c02_classes(quick):
 C02_DEEP_CLASSES = ("int.mr.mov", "int.rm.add", "int.lea", "int.m.neg")
 
 
-def c02_families(quick):
+def c02_families(quick, pool=False):
     """quick: a reduced class list x 20 shapes, one keyword rotated over the shapes.
     thorough: every class x the 20 shapes with all four keywords, and every
     shape (all kinds x scales x displacement spellings) for the classes in
@@ -511,12 +511,18 @@ def c02_families(quick):
     out = []
     qs, al = quick_shapes(), None
     deep_extra = set()
-    for cname, fn in c02_classes(quick):
+    for ci, (cname, fn) in enumerate(c02_classes(quick)):
         if quick:
-            shapes = qs
+            # every class on a rotating quarter of the 20 shapes (so each shape is met by many classes), the
+            # classes of C02_DEEP_CLASSES and the first class of each vector family on all 20
+            deep = pool or cname in ("int.mr.mov", "int.lea")
+            if cname.startswith("avx.") and "avx." not in deep_extra:
+                deep_extra.add("avx.")
+                deep = True
+            shapes = qs if deep else [sh for i, sh in enumerate(qs) if (i + ci) % 4 == 0]
         else:
             deep = cname in C02_DEEP_CLASSES
-            for pre in ("sse.", "vex.", "mmx.", "bmi."):
+            for pre in ("sse.", "avx.", "mmx.", "bmi."):
                 if cname.startswith(pre) and pre not in deep_extra:
                     deep_extra.add(pre)
                     deep = True
@@ -527,12 +533,21 @@ def c02_families(quick):
             if not deep and re.match(r"int\.(rm\.cmov|m\.set)", cname) and cname not in ("int.rm.cmovne", "int.m.setne"):
                 shapes = qs[(len(out) % 3)::3]
         for i, sh in enumerate(shapes):
-            if quick or not deep:
+            if pool:
                 kws = [["byte", "word", "dword", "qword"][i % 4]] if i % 3 == 0 else []
+            elif quick or not deep:
+                kws = [["byte", "word", "dword", "qword"][(i + ci) % 4]] if (i + ci) % 3 == 0 else []
             else:
                 kws = ["byte", "word", "dword", "qword"]
             out += fn(sh, kws)
+    if quick and not pool:
+        # the regions of the open findings stay represented in the per-change tier (each is re-confirmed on every run)
+        have = {sk.name for sk in out}
+        out += [sk for sk in c02_families(True, pool=True) if sk.name in C02_QUICK_EXTRA and sk.name not in have]
     return out
+
+
+C02_QUICK_EXTRA = ("c02.shl.m_cl.d_s1_hex.dword", "c02.shl.m_cl.md_s1_hex.dword", "c02.neg.m.b_s1_hex.qword", "c02.movzx.rm.bpd_s1_dec.word")
 
 
 # ---------------------------------------------------------------------------
@@ -769,8 +784,14 @@ def c05_families(quick):
     spell = [("hex", False), ("hex", True), ("dec", False), ("dec", True)]
     ops = [("jmp", "XOP_JMP", True, True)] + [("j" + s, "(XOP_JCC + %d)" % F.CC[s], True, True) for s in F.JCC_SUFFIXES + ["be"]]
     for mn, xop, r8, r32 in ops:
-        for kwd in (None, "short", "long"):
-            sp = spell if (not quick or mn in ("jmp", "jne", "jbe")) else spell[:2]
+        for ki, kwd in enumerate((None, "short", "long")):
+            if not quick or mn in ("jmp", "jne"):
+                sp = spell
+            elif mn == "jbe":
+                sp = spell[:2]
+            else:
+                # the other condition codes share their rows' pattern: one spelling per keyword, alternating the sign
+                sp = [spell[(ki + len(out)) % 2]]
             for st, neg in sp:
                 out.append(c05_rel(mn, xop, kwd, st, neg, r8, r32))
     for st, neg in spell:
@@ -787,6 +808,8 @@ def c05_families(quick):
         sk.post.append('CHECK(!D.far && D.osize == 64, "near indirect branch through a 64-bit register");')
         out.append(sk)
         shapes = quick_shapes() if quick else all_shapes()
+        if quick:     # (the addressing code is C02's subject; here the shapes with and without SIB / displacement, and no base)
+            shapes = [sh for i, sh in enumerate(shapes) if i % 3 == (0 if mn == "jmp" else 1) or sh.kind in ("b", "b+i*s+d")]
         for sh in shapes:
             for kw in (None, "qword"):
                 if quick and kw and sh.kind not in ("b", "b+i*s+d"):
@@ -868,7 +891,7 @@ def c11_pairs(quick):
     c4 = c04_families(quick)
     c5 = [s for s in c05_families(quick) if s.family == "branch.rel"]
     c3 = [s for s in c03_families(quick) if not s.meta.get("mov64")]
-    c2 = c02_families(quick)
+    c2 = c02_families(quick, pool=quick)
 
     def insensitive(s):
         # memory shapes that the SIB options touch
@@ -894,6 +917,10 @@ def c11_pairs(quick):
                     s.meta["mem"][0]["shape"] in ("b", "b+d", "b+i*s", "b+i*s+d", "d"):
                 seen.add(key)
                 pick2.append(s)
+        # per-change tier: one spelling per branch form, every second immediate form, every second memory shape
+        pick5 = [s for s in pick5 if s.name.endswith((".hex", ".neghex")) and not s.name.startswith(("c05.jmp.long", "c05.jrcxz.nokw.neghex"))][:8]
+        pick3 = [s for s in pick3 if not s.name.endswith(".dec")]
+        pick2 = pick2[::2] if len(pick2) > 18 else pick2
         reps = pick1 + pick4 + pick5 + pick3 + pick2
     else:
         reps = c1 + c4 + c5 + c3 + [s for s in c2 if insensitive(s)][::7]
@@ -1026,7 +1053,8 @@ def c10_families(quick, kinds_table):
                     sk.t(piece)
         out.append(_reject("c10.mem.%s" % nm, build, "reject.mem"))
     # the stack pointer as scaled index, or as base and index
-    for nm, text, cond in (("sp_scaled", "lea {r}, [{a}+{b}*2]", "R2.num == 4"), ("sp_scaled1", "lea {r}, [{a}+{b}*1]", "R2.num == 4"),
+    for nm, text, cond in (("sp_scaled", "lea {r}, [{a}+{b}*2]", "R2.num == 4"),
+                           # (not "[a+rsp*1]": with scale 1 the sum is commutative, nasm and the library encode it as [rsp+a], the same address)
                            ("sp_scaled_first", "lea {r}, [{a}+4*{b}]", "R2.num == 4"), ("sp_nobase", "lea {r}, [8*{b}]", "R1.num == 4"),
                            ("sp_both", "lea {r}, [{a}+{b}]", "R1.num == 4 && R2.num == 4"),
                            ("sp_scaled_mov", "mov [{a}+{b}*8+0x10], {r}", "R1.num == 4")):
@@ -1065,7 +1093,7 @@ def c16_base_families(quick):
     seeds += [s for s in c03_families(True) if s.name in (
         "c03.add.r.hex", "c03.and.m_dword_bpd_s1_hex.hex", "c03.test.r.hex", "c03.mov.r.hex", "c03.mov.r64.hex", "c03.imul.rri.hex",
         "c03.push.i.hex", "c03.shl.r.hex", "c03.mov.m_word_bmd_s1_hex.neghex", "c03.add.r.neghex", "c03.mov.r64.neghex")]
-    seeds += [s for s in c02_families(True) if s.name in (
+    seeds += [s for s in c02_families(True, pool=True) if s.name in (
         "c02.mov.mr.bpd_s1_hex", "c02.mov.mr.bmd_s1_hex", "c02.add.rm.bpixspd_s2_hex", "c02.lea.rm.bpsximd_s8_hex", "c02.lea.rm.sxipd_s8_hex",
         "c02.lea.rm.d_s1_hex", "c02.lea.rm.md_s1_hex", "c02.vpaddd.yym.bpixspd_s2_hex", "c02.paddd.xm.bmd_s1_hex")]
     seeds += [s for s in c05_families(True) if s.name in ("c05.jmp.nokw.hex", "c05.jne.nokw.neghex", "c05.call.nokw.hex", "c05.jmp.short.hex")]
@@ -1107,7 +1135,7 @@ def c06_context_families(quick, assemble_alone):
     ctx = CONTEXT_LINES if not quick else CONTEXT_LINES[:8]
     seeds = []
     seeds += [s for s in c01_families(True) if s.name in ("c01.add.rr", "c01.push.r", "c01.pop.r", "c01.setne.r", "c01.shl.r_cl", "c01.ret", "c01.imul.r")]
-    seeds += [s for s in c02_families(True) if s.name in ("c02.mov.mr.b_s1_hex", "c02.lea.rm.bpixs_s8_hex", "c02.push.m.b_s1_hex", "c02.neg.m.bpd_s1_hex.dword",
+    seeds += [s for s in c02_families(True, pool=True) if s.name in ("c02.mov.mr.b_s1_hex", "c02.lea.rm.bpixs_s8_hex", "c02.push.m.b_s1_hex", "c02.neg.m.bpd_s1_hex.dword",
                                                           "c02.vpaddd.yym.b_s1_hex", "c02.paddd.rm.bpd_s1_hex")]
     seeds += [s for s in c03_families(True) if s.name in ("c03.add.r.hex", "c03.mov.m_byte_b_s1_hex.hex")]
     seeds += [s for s in c04_families(True) if s.name in ("c04.vpaddd.yyy", "c04.mulx.rrr", "c04.movq.x_r64")]
